@@ -18,7 +18,9 @@ any finite history of method calls; `run init ops` is such a state for every `op
 The history alphabet `Op` contains, besides the methods of the class, the package's other mutating
 callers of a collection: `RescuedGrouping.update_protein_groups` (`Op.updateRescued`) and
 `ConnectedProteinGraphs.get_connected_proteins` / `decouple_connected_proteins`
-(`Op.mergeComponents`); `RescuedGrouping.merge_with_rescued_protein_groups` is `Op.addUnseen` with the
+(`Op.mergeComponents`), and the package's READERS of a collection (`Op.read`: result rows, competition,
+score collection, their chain in `get_protein_group_results`, precursor quantification — no-op steps that
+may only fail loudly); `RescuedGrouping.merge_with_rescued_protein_groups` is `Op.addUnseen` with the
 groups of a second live collection as argument, `ObservedPeptides.generate_protein_groups` is proved to be
 a history of this machine in `Props/C03.lean` (`generatePG`).
 -/
@@ -164,6 +166,48 @@ theorem failed_merge_and_lookups_change_nothing (pg : PG P) :
     (∀ op : Op P, op.isMutator = false → (step pg op).1 = pg) := by
   refine ⟨?_, fun op h => step_lookup_state pg op h⟩
   intro sup p e h; simp [step, h]
+
+/-- "… returns exactly the group (or group position) that currently contains that protein" can only
+    hold across the pipeline if the package's READERS of a collection — `ProteinGroupResults.from_protein_groups`,
+    `ProteinCompetitionStrategy.do_competition` (whose returned collection shares the group lists),
+    `collect_peptide_scores_per_protein`, the three chained as in `get_protein_group_results`,
+    `add_precursor_quants` — leave it exactly as it is (groups, index and flag): a reader call answers
+    nothing, and fails only loudly — with the invalid-index error, only a reader that looks proteins up
+    through the index, only while the flag is down -/
+theorem readers_change_nothing (pg : PG P) (r : Reader) :
+    (step pg (.read r)).1 = pg ∧
+    ((step pg (.read r)).2 = .unit ∨
+      ((step pg (.read r)).2 = .err .invalidIndex ∧ r.needsIndex = true ∧ pg.valid = false)) ∧
+    (pg.valid = true → (step pg (.read r)).2 = .unit) ∧
+    (r.needsIndex = false → (step pg (.read r)).2 = .unit) := by
+  refine ⟨rfl, ?_, ?_, ?_⟩
+  · cases hn : r.needsIndex <;> cases hv : pg.valid <;> simp [step, hn, hv]
+  · intro hv; simp [step, hv]
+  · intro hn; simp [step, hn]
+
+/-- "after any sequence of additions, merges and clean-ups …" interleaved with any number of reader
+    calls: the readers are transparent — deleting every reader call from a history gives the same
+    collection (so every later lookup gives the same answer as if no result row had ever been written) -/
+theorem readers_transparent (ops : List (Op P)) (pg : PG P) :
+    run pg (ops.filter (fun op => !op.isRead)) = run pg ops := by
+  induction ops generalizing pg with
+  | nil => rfl
+  | cons op ops ih =>
+    cases hr : op.isRead with
+    | true =>
+      have hs : (step pg op).1 = pg := by
+        cases op <;> simp [Op.isRead] at hr
+        rfl
+      have : run pg (op :: ops) = run (step pg op).1 ops := rfl
+      rw [this, hs, List.filter_cons_of_neg (by simp [hr])]
+      exact ih pg
+    | false =>
+      have : run pg (op :: ops) = run (step pg op).1 ops := rfl
+      rw [this, List.filter_cons_of_pos (by simp [hr])]
+      have : run pg (op :: ops.filter (fun op => !op.isRead)) =
+          run (step pg op).1 (ops.filter (fun op => !op.isRead)) := rfl
+      rw [this]
+      exact ih _
 
 /-- `create_index`, `remove_empty_groups`, `add_unseen_protein_groups` leave a valid index that is the
     index of the groups they leave -/
@@ -356,5 +400,20 @@ example : (mergeComponents (run (init : PG String) (demoCallers ++ [.createIndex
     = some .unknownProtein := by decide
 example : (step (run (init : PG String) (demoCallers ++ [.createIndex])) (.mergeComponents [["A", "C", "X"]])).1.valid
     = false := by decide
+
+/-- readers between the calls of `demoOps`: the report chain on the indexed collection, result rows and
+    a competition while the flag is down (they do not use the index), a score collection while the flag
+    is down (fails loudly) -/
+def demoReaders : List (Op String) :=
+  [.append ["A", "B"], .append ["C"], .read .resultRows, .createIndex, .read .reportChain, .merge "A" "C",
+   .read .competition, .read .collectScores, .removeEmpty, .read .precursorQuants]
+
+example : demoReaders.filter (fun op => !op.isRead) = demoOps := rfl
+example : (run (init : PG String) demoReaders).groups = [["A", "B", "C"]] := by decide
+example : getGroup (run (init : PG String) demoReaders) "C" = .ok ["A", "B", "C"] := by decide
+example : (run (init : PG String) (demoReaders.take 7)).valid = false := by decide
+example : (step (run (init : PG String) (demoReaders.take 7)) (.read .collectScores)).2 = .err .invalidIndex := rfl
+example : (step (run (init : PG String) (demoReaders.take 7)) (.read .competition)).2 = .unit := rfl
+example : (step (run (init : PG String) demoReaders) (.read .reportChain)).2 = .unit := rfl
 
 end PgFdr.C20
